@@ -1522,3 +1522,173 @@ pub fn srv_fault(rec: &mut Rec, rng: &mut Rng, thorough: bool) {
         sim.w.teardown();
     }
 }
+
+/// Bounded-exhaustive server histories ("small scope"): two accepted clients A and B, then EVERY sequence of up to
+/// `depth` steps over a fixed alphabet — A sends a request (whole / in two halves / an Expect head and later its
+/// body / garbage), A closes or half-closes, B sends a request, a poll, the application answers the oldest or the
+/// newest request it holds, A reads, a third client connects, flush. The random suites reach orderings such as
+/// "answer between two polls", "close before / after the answer", "respond newest first" only by chance; here every
+/// ordering of short length is visited. Then the history is settled and the usual oracles are evaluated: polls
+/// never fail, nobody receives a foreign or duplicate response, well-behaved clients get every request yielded once
+/// and every response in full, departed clients are released once answered, the epoll descriptor falls silent.
+pub fn srv_enum(rec: &mut Rec, rng: &mut Rng, thorough: bool) {
+    let n_ops = 13usize;
+    // 13 + 13^2 + 13^3 = 2 379 histories in the quick tier, 30 940 with depth 4 (about a minute) in the thorough tier
+    let depth = std::env::var("MH_ENUM_DEPTH").ok().and_then(|v| v.parse().ok()).unwrap_or(if thorough { 4 } else { 3 });
+    let mut idx: Vec<usize> = vec![0];
+    let mut len = 1;
+    loop {
+        rec.case("srv-enum");
+        let mut cfg = Cfg::base("C09");
+        cfg.max_clients = 4;
+        let mut sim = Sim::new(rec, cfg);
+        let a = sim.connect(rec);
+        let b = sim.connect(rec);
+        sim.poll(rec);
+        sim.poll(rec);
+        let mut half = false; // A sent the first half of a request
+        let mut awaiting_body = false; // A sent an Expect head and owes the body
+        let send_whole = |sim: &mut Sim, rec: &mut Rec, i: usize| {
+            let j = sim.plans[i].next_req;
+            sim.plans[i].next_req += 1;
+            let t = tag(i, j);
+            let ok = sim.w.send(rec, i, format!("GET {} HTTP/1.1\r\nHost: h\r\n\r\n", t).as_bytes());
+            if ok {
+                sim.plans[i].sent.push(t);
+            } else {
+                sim.plans[i].sent_garbage = true;
+                sim.w.clients[i].misbehaved = true;
+            }
+        };
+        for &k in &idx {
+            if sim.w.server.is_none() {
+                break;
+            }
+            let a_open = sim.w.clients[a].sock.is_some() && !sim.w.clients[a].wr_shut;
+            match k {
+                0 => {
+                    if a_open && !half && !awaiting_body {
+                        send_whole(&mut sim, rec, a);
+                    }
+                }
+                1 => {
+                    if a_open && !awaiting_body {
+                        if !half {
+                            let j = sim.plans[a].next_req;
+                            let t = tag(a, j);
+                            sim.w.send(rec, a, format!("PATCH {} HT", t).as_bytes());
+                            half = true;
+                        } else {
+                            let j = sim.plans[a].next_req;
+                            sim.plans[a].next_req += 1;
+                            if sim.w.send(rec, a, b"TP/1.0\r\nX-K: v\r\n\r\n") {
+                                sim.plans[a].sent.push(tag(a, j));
+                            }
+                            half = false;
+                        }
+                    }
+                }
+                2 => {
+                    if a_open && !half {
+                        if !awaiting_body {
+                            let j = sim.plans[a].next_req;
+                            let t = tag(a, j);
+                            sim.w.send(rec, a, format!("PUT {} HTTP/1.1\r\nExpect: 100-continue\r\nContent-Length: 2\r\n\r\n", t).as_bytes());
+                            awaiting_body = true;
+                        } else {
+                            let j = sim.plans[a].next_req;
+                            sim.plans[a].next_req += 1;
+                            if sim.w.send(rec, a, b"ab") {
+                                sim.plans[a].sent.push(tag(a, j));
+                            }
+                            awaiting_body = false;
+                        }
+                    }
+                }
+                3 => {
+                    if a_open {
+                        sim.plans[a].sent_garbage = true;
+                        sim.plans[a].outq.clear();
+                        sim.w.clients[a].misbehaved = true;
+                        sim.w.send(rec, a, b"BAD\r\n\r\n");
+                    }
+                }
+                4 => {
+                    if sim.w.clients[a].sock.is_some() {
+                        sim.w.close(rec, a);
+                    }
+                }
+                5 => {
+                    if a_open {
+                        sim.w.shutdown(rec, a, Shutdown::Write);
+                    }
+                }
+                6 => send_whole(&mut sim, rec, b),
+                7 => {
+                    sim.poll(rec);
+                }
+                8 => {
+                    if !sim.w.held.is_empty() {
+                        sim.respond(rec, rng, 0);
+                    }
+                }
+                9 => {
+                    // the newest request — but never out of order for one client (A1 / in-order clause): the newest
+                    // request of the client whose OLDEST request it is
+                    if let Some(last) = sim.w.held.last() {
+                        let c = last.client;
+                        let first_of_c = sim.w.held.iter().position(|h| h.client == c).unwrap();
+                        sim.respond(rec, rng, first_of_c);
+                    }
+                }
+                10 => {
+                    if sim.w.clients[a].sock.is_some() {
+                        sim.w.client_read(rec, a);
+                    }
+                }
+                11 => {
+                    if sim.w.clients.len() < 4 {
+                        sim.connect(rec);
+                    }
+                }
+                _ => {
+                    sim.w.flush(rec);
+                }
+            }
+        }
+        // a request A left unfinished makes A no well-behaved client for the final oracles (nothing is owed for it)
+        if half || awaiting_body {
+            sim.w.clients[a].misbehaved = true;
+        }
+        sim.settle(rec, rng);
+        common_checks(rec, &mut sim, "C09");
+        check_yield_once(rec, &sim);
+        release_check(rec, &mut sim, "C09");
+        if sim.w.server.is_some() && sim.w.backlog.is_empty() && sim.w.held.is_empty() && sim.w.ready() {
+            // only connections whose client is still there and silent may remain: nothing must signal
+            rec.oracle_fail("C08", "the epoll descriptor still signals after the history was settled", &sim.w.log);
+        }
+        if idx.len() >= 2 {
+            rec.nontrivial();
+        }
+        sim.w.teardown();
+        // next sequence (odometer)
+        let mut pos = idx.len();
+        loop {
+            if pos == 0 {
+                len += 1;
+                idx = vec![0; len];
+                break;
+            }
+            pos -= 1;
+            idx[pos] += 1;
+            if idx[pos] < n_ops {
+                break;
+            }
+            idx[pos] = 0;
+        }
+        if len > depth {
+            break;
+        }
+    }
+}
